@@ -133,4 +133,26 @@ var configs = map[string]propCfg{
 			"Non-trivial = >= 1 diagnostic in a workspace with a test variant or >= 2 packages, or an in-process case with >= 1 fix; distinct by workspace+configuration.",
 		Assumptions: []string{"the stock singlechecker driver de-duplicates diagnostics of test variants", "the analyzer is always given an explicit -disable list (its documented default differs from the CLI's)"},
 	},
+	"C06": {
+		Quick:    tierCfg{Shards: 10, Checks: 14, Limit: qLimit},
+		Thorough: tierCfg{Shards: 16, Checks: 400, Limit: tLimit},
+		Floor:    20,
+		NeedBins: true,
+		Rule: "enable/disable lists drawn over {every registered checker name, the six tags, unknown names and tags, wrong case, empty entries, duplicates} plus a focus checker that is put in/out of each list by name and by tag (the five booleans name-in-E, tag-in-E, name-in-D, tag-in-D, enable-all are drawn independently), with and without each flag, for go-critic, gocritic and the analyzer; " +
+			"parameters (incl. a bogus rules/failOn for ruleguard) are given only to checkers outside the selection. One run exercises all 107 checkers, each with its own combination. " +
+			"Oracle = executable specification written from the statement: the set of `X is enabled` lines (-v / -debug-init) equals {c | (all or name in E or tag in E) and name not in D and no tag in D}; absent flags mean the documented defaults of that front-end; " +
+			"empty selection => non-zero exit and a message; every diagnostic line is attributed to a selected checker; initialisation never fails because of an unselected checker's parameters. Once per shard: the no-flag sets of all four binaries equal the default rule. " +
+			"Non-trivial = a configuration that enables by tag and disables something (both halves of the algebra) or carries inert parameters; distinct by normalised lists x front-end.",
+		Assumptions: []string{"entries with surrounding whitespace are not generated (the CLI does not trim, the analyzer does; the statement does not define it)", "the analyzer is compared against its own documented flag defaults"},
+	},
+	"C19": {
+		Quick:    tierCfg{Shards: 10, Checks: 20, Limit: qLimit},
+		Thorough: tierCfg{Shards: 16, Checks: 400, Limit: tLimit},
+		Floor:    30,
+		NeedBins: true,
+		Rule: "two families, half each: (1) invalid configuration from {malformed -go (11 spellings), unknown failOn, rules pattern without a match, empty selection, unparsable integer parameter} x the four binaries x 1-3 target packages (each with one diagnostic to reveal analysis with a partial set); " +
+			"oracle: non-zero exit, a message naming the problem (keyword table per class), no panic/fatal/signal trace, no diagnostic line; (2) workspaces with 1-2 injected faults from {deleted brace/paren, undefined identifier, type mismatch, unloadable import, relative import, mixed package clauses, empty file, truncated file, unused variable, duplicate declarations, missing return, builtin calls with wrong arity} analysed with all checkers by each binary; " +
+			"oracle: any exit status but no crash trace and completion within 150 s (re-confirmed once). Non-trivial = invalid configuration with >= 2 packages (re-entry after the first error), or any broken package; distinct by case.",
+		Assumptions: []string{"an unparsable flag value rejected by the flag package itself counts as clean failure"},
+	},
 }
